@@ -1,10 +1,16 @@
 ------------------------------- MODULE TraceLB -------------------------------
 (* impl -> spec: the lb_select events of the real LoadBalanceConnector (emitted next to the        *)
-(* fetch_add / hash / choose), recorded while many tasks select concurrently, merged with what the *)
-(* recording member connectors and the contexts observed.  Round-robin events are replayed in      *)
-(* ticket order: a duplicated or skipped ticket (a non-atomic counter) cannot be matched by        *)
-(* SelectRR.  `obs` events state, per request, the member that was invoked and the connector name   *)
-(* recorded on the context; both must be the selected member.                                      *)
+(* fetch_add / hash / choose), merged with what the recording member connectors and the contexts    *)
+(* observed.  Round robin is validated in two kinds of run (Hdr.mode):                             *)
+(*   "seq"   one task selects: emission order is selection order and every event must be SelectRR   *)
+(*           of the spec (the rotation, hence the window law over consecutive selections);         *)
+(*   "conc"  many tasks select at once: the order of the log is not the order of the atomic steps, *)
+(*           so only what is order-independent is demanded: members only, and over the k*n          *)
+(*           selections of the run every position of the member list exactly k times (a lost or    *)
+(*           duplicated ticket of a non-atomic counter breaks this).                              *)
+(* The hook's ticket field is deliberately not used: the law is about members, not about how the   *)
+(* counter is represented.  `obs` events state, per request, the member that was invoked and the     *)
+(* connector name recorded on the context; both must be the selected member.                        *)
 EXTENDS LB, Json, IOUtils, TLC
 
 Rec == ndJsonDeserialize(IOEnv.TRACE)
@@ -18,9 +24,12 @@ tvars == <<vars, l, lastSel>>
 TraceInit == Init /\ l = 2 /\ lastSel = ""
 IsEvent(e) == l <= Len(Rec) /\ Rec[l].ev = e /\ l' = l + 1
 
-TRR == /\ IsEvent("lb_select") /\ Rec[l].algo = "rr"
-       /\ Rec[l].ticket = idx /\ Rec[l].n = N
+TRR == /\ IsEvent("lb_select") /\ Rec[l].algo = "rr" /\ Hdr.mode = "seq"
        /\ SelectRR(1) /\ sel'[Len(sel')].member = Rec[l].member /\ lastSel' = Rec[l].member
+TRRConc == /\ IsEvent("lb_select") /\ Rec[l].algo = "rr" /\ Hdr.mode = "conc"
+           /\ Rec[l].member \in MemberSet
+           /\ sel' = Append(sel, [algo |-> "rr", ticket |-> 0, member |-> Rec[l].member])
+           /\ lastSel' = Rec[l].member /\ UNCHANGED <<idx, hmap>>
 (* the hash function is not known to the spec: the first use of a key fixes its member, later uses must agree *)
 THash == /\ IsEvent("lb_select") /\ Rec[l].algo = "hash"
          /\ Rec[l].member \in MemberSet
@@ -39,8 +48,15 @@ TSum == /\ IsEvent("sum")
         /\ \A i \in 1..N : Rec[l].invoked[Members[i]] = Count(sel, Members[i])
         /\ Rec[l].total = Len(sel)
         /\ (Hdr.algo # "hash" => {sel[j].member : j \in 1..Len(sel)} = MemberSet)   \* rr / random: every member was used
+        \* round robin: a run of k*n selections holds every member exactly k times its multiplicity in the list
+        /\ ((Hdr.algo = "rr" /\ Len(sel) % N = 0) =>
+               \A i \in 1..N : Count(sel, Members[i]) = (Len(sel) \div N) * Cardinality({j \in 1..N : Members[j] = Members[i]}))
         /\ UNCHANGED <<vars, lastSel>>
-TraceNext == TRR \/ THash \/ TRandom \/ TObs \/ TSum
+(* a contended run without per-selection events: only the totals; k*n selections, every position k times *)
+THammer == /\ IsEvent("hammer") /\ Rec[l].total % N = 0
+           /\ \A i \in 1..N : Rec[l].counts[Members[i]] = (Rec[l].total \div N) * Cardinality({j \in 1..N : Members[j] = Members[i]})
+           /\ UNCHANGED <<vars, lastSel>>
+TraceNext == THammer \/ TRR \/ TRRConc \/ THash \/ TRandom \/ TObs \/ TSum
 TraceSpec == TraceInit /\ [][TraceNext]_tvars
 
 (* TicketsExact and HashStable are enforced step by step by TRR (ticket = idx) and THash (hmap);       *)
